@@ -204,6 +204,13 @@ def run(ck):
     ck.extra["float_worst_rel_error_ulp"] = worst * 2 ** 53
     ck.count("decimal/float", 1500)
 
+    gtot, gbad, gfirst = regk.generated_stream(ck, rng, 40 if thorough else 6, oracle, "c02")
+    ck.extra["generated_registry_cases"] = gtot
+    ck.extra["generated_registry_disagreements"] = gbad
+    if gbad:
+        ck.broken.append(f"correspondence on generated registries: {gbad} disagreements")
+        if not fails:
+            ck.violation("correspondence-generated", "model and implementation disagree on a generated registry; no property oracle failed", gfirst, no_input=True)
     bad = ck.coq_mismatches("c02", regk.HEADER, cases, "ok")
     ck.extra["model_vs_impl_cases"] = len(cases)
     ck.extra["model_vs_impl_disagreements"] = None if bad is None else len(bad)
